@@ -137,8 +137,25 @@ impl Frame {
         Ok(())
     }
 
+    // The attribute length is one byte: a longer host name (or a longer body than u16) would wrap
+    pub fn check_encodable(&self) -> IoResult<()> {
+        if let Some(TargetAddress::DomainPort(host, _)) = &self.addr {
+            if host.len() + 2 > u8::MAX as usize {
+                return Err(IoError::new(
+                    ErrorKind::InvalidInput,
+                    format!("host name too long for a frame header: {} bytes", host.len()),
+                ));
+            }
+        }
+        if self.body.len() > u16::MAX as usize {
+            return Err(IoError::new(ErrorKind::InvalidInput, "frame body too long"));
+        }
+        Ok(())
+    }
+
     // Write head and body to output stream
     pub async fn write_to<T: AsyncWrite + Unpin>(&self, output: &mut T) -> IoResult<usize> {
+        self.check_encodable()?;
         let head = self.make_header();
         output.write_all(&head).await?;
         output.write_all(&self.body).await?;
